@@ -260,7 +260,7 @@ func changeOneField(codec string, p *videoParams, pick int) *videoParams {
 			}
 		}
 	case "h264":
-		if pick%2 == 0 {
+		if pick%2 == 0 && p.pps != nil {
 			q.pps = append([]byte(nil), p.pps...)
 			q.pps[len(q.pps)-1] ^= 0x15
 		} else {
@@ -446,7 +446,10 @@ func buildVideoUnitAt(codec string, track, idx int, key bool, p *videoParams, in
 	switch codec {
 	case "h264":
 		if inband {
-			data = append(data, p.sps, p.pps)
+			data = append(data, p.sps)
+			if p.pps != nil {
+				data = append(data, p.pps)
+			}
 		}
 		if p.reorder {
 			body = append(h264SliceStart(key, sp), body...)
@@ -491,6 +494,9 @@ func buildVideoUnitAt(codec string, track, idx int, key bool, p *videoParams, in
 func paramNALUs(codec string, p *videoParams) [][]byte {
 	if codec == "h265" {
 		return [][]byte{p.vps, p.sps, p.pps}
+	}
+	if p.pps == nil {
+		return [][]byte{p.sps}
 	}
 	return [][]byte{p.sps, p.pps}
 }
